@@ -49,7 +49,10 @@ def rule_algebra(ctx: Ctx) -> None:
             continue
         rows.add("ok")
         rv = p.retval
-        ctx.require(isinstance(rv, ast.Call) and S(rv.func) in ("HomogeneousMatrix", "cls", "type(self)"), f"dot: returns `{S(rv)[:80]}`")
+        if p.exit and p.exit[0] == "raise":
+            ctx.violate("C18-algebra", "HomogeneousMatrix.dot", "match-raises", "composition with MATCHING frames (self.src == other.dst) is rejected", fi=fi)
+            continue
+        ctx.require(isinstance(rv, ast.Call) and S(rv.func) in ("HomogeneousMatrix", "cls", "type(self)"), f"dot: returns `{S(rv)[:80] if rv is not None else None}`")
         kw = {k.arg: S(k.value) for k in rv.keywords}
         pos = [S(a) for a in rv.args]
         src, dst = kw.get("src", pos[2] if len(pos) > 2 else None), kw.get("dst", pos[3] if len(pos) > 3 else None)
